@@ -775,6 +775,33 @@ func (env *Env) call(x *ast.CallExpr) (Val, error) {
 		}
 		return env.eval(x.Args[i])
 	}
+	if sel, ok := x.Fun.(*ast.SelectorExpr); ok {
+		if pk, ok := sel.X.(*ast.Ident); ok {
+			// a call of a `pure` external (fmt.Sprintf, filepath.Join): the uninterpreted function the call sites assume
+			want := pk.Name + "." + sel.Sel.Name
+			for key, c := range vc.e.contracts {
+				if c.PureResult && (key == want || strings.HasSuffix(key, "/"+want)) {
+					var args []Val
+					for i := range x.Args {
+						v, err := arg(i)
+						if err != nil {
+							return Val{}, err
+						}
+						args = append(args, v)
+					}
+					so, rt, ok := vc.pureResult(key)
+					if !ok {
+						return Val{}, fmt.Errorf("%s: a pure function needs a string, integer or boolean (first) result", want)
+					}
+					app, ok := vc.pureApp(key, args, so)
+					if !ok {
+						return Val{}, fmt.Errorf("%s: only string, integer and boolean arguments are supported for pure functions", want)
+					}
+					return Val{T: app, Typ: rt}, nil
+				}
+			}
+		}
+	}
 	switch fname {
 	case "old":
 		n := env.sub()
